@@ -10,6 +10,8 @@ import (
 	"os"
 	"path"
 	"sync"
+	"sync/atomic"
+	"time"
 
 	"github.com/google/gce-tcb-verifier/endorse"
 	"github.com/google/gce-tcb-verifier/keys"
@@ -44,6 +46,7 @@ type Case struct {
 // Obs is what one real run produced.
 type Obs struct {
 	Cfg           Cfg
+	Wiring        string // how the version-control system was named in the Context (VCS | VCSs | VCS+VCSs)
 	Log           []Event
 	Ret           string // ok | err | noretries | panic
 	RetErr        string
@@ -88,7 +91,9 @@ func (passDecider) OthersBefore(string) int                       { return 0 }
 // oldEndorsement is a genuinely signed endorsement of imgOld (the pre-existing file of exists0).
 func oldEndorsement() ([]byte, error) {
 	oldOnce.Do(func() {
+		plainWiring.Store(true)
 		o := runRaw(Cfg{Retries: 0}, passDecider{}, imgOld, nil)
+		plainWiring.Store(false)
 		if o.Ret != "ok" {
 			oldErr = fmt.Errorf("cannot produce the pre-existing endorsement: %s %s", o.Ret, o.RetErr)
 			return
@@ -118,6 +123,30 @@ func RunCase(cfg Cfg, d Decider) *Obs {
 	return runRaw(cfg, d, imgMine, head)
 }
 
+var wiringCounter atomic.Int64
+
+// plainWiring forces the VCS-field wiring while fixtures are produced.
+var plainWiring atomic.Bool
+
+// wire connects the version-control double to the request in one of the three ways a Context can
+// name it: the VCS field, the transitional VCSs list, or both (the primary also being listed).
+func wire(ectx *endorse.Context, w endorse.VersionControl) string {
+	if plainWiring.Load() {
+		ectx.VCS = w
+		return "VCS"
+	}
+	switch wiringCounter.Add(1) % 3 {
+	case 1:
+		ectx.VCS, ectx.VCSs = nil, []endorse.VersionControl{w}
+		return "VCSs"
+	case 2:
+		ectx.VCS, ectx.VCSs = w, []endorse.VersionControl{w}
+		return "VCS+VCSs"
+	}
+	ectx.VCS = w
+	return "VCS"
+}
+
 func runRaw(cfg Cfg, d Decider, img []byte, head map[string][]byte) *Obs {
 	if head == nil {
 		head = map[string][]byte{}
@@ -136,8 +165,9 @@ func runRaw(cfg Cfg, d Decider, img []byte, head map[string][]byte) *Obs {
 		ectx.SnapshotDir = "snap"
 		ectx.ImageName = "fw.fd"
 	}
+	wiring := wire(ectx, w)
 	ctx := endorse.NewContext(fx.Ctx(kc, cfg.Overwrite, false), ectx)
-	o := &Obs{Cfg: cfg, Head0: head, MineDigest: digestOf(img),
+	o := &Obs{Cfg: cfg, Wiring: wiring, Head0: head, MineDigest: digestOf(img),
 		EndoPath: path.Join(root, outDir, "endorsement.binarypb"), ManPath: path.Join(root, outDir, endorse.ManifestFile)}
 
 	runVF(ctx, cfg, w, o)
@@ -172,6 +202,10 @@ func runVF(ctx context.Context, cfg Cfg, w *World, o *Obs) {
 			}
 		}()
 		err := endorse.VirtualFirmware(ctx)
+		if cfg.MeasOnly || cfg.DryRun {
+			// side effects started in the background by a run that should have none must still be seen
+			time.Sleep(25 * time.Millisecond)
+		}
 		switch {
 		case err == nil:
 			o.Ret = "ok"
